@@ -78,6 +78,29 @@ def run_c14(ctx):
             pieces.append(p)
             rest -= p
         cases.append({"src": rnd.choice(["file", "tcp"]), "size": size, "bytes": [rnd.randint(0, 255) for _ in range(nbytes)], "pieces": pieces})
+    # slow reader: the output stream (4096 bytes) is left to fill up while bytes keep arriving, so
+    # that reads get as small as the last few free samples, with a partial sample buffered
+    for k in range(16 if th else 8):
+        size = [4, 8, 4, 8, 1][k % 5]
+        cap = 4096 // size
+        extra = rnd.choice([size, 3 * size + 1, 40 * size + size // 2, 300])
+        nbytes = cap * size + extra
+        nz = rnd.choice([30, 60, 90])
+        first = rnd.choice([nbytes, nbytes - 1, 1, 2, 3, 5, 7])
+        pieces = [first] + ([nbytes - first] if first < nbytes else []) + [0] * nz
+        # everything is in the socket before the reads without a fresh piece start, and the reader
+        # takes fewer samples in total than there are bytes beyond the stream's capacity, so a
+        # read never finds the socket empty (it would block)
+        budget = max(0, (extra - size) // size)
+        drains = []
+        for _ in pieces:
+            d = min(budget, rnd.choice([0, 0, 0, 1, 2, 3, 5]))
+            budget -= d
+            drains.append(d)
+        drains[0] = 0
+        if first < nbytes:
+            drains[1] = 0
+        cases.append({"src": "tcp", "size": size, "bytes": [rnd.randint(0, 255) for _ in range(nbytes)], "pieces": pieces, "drains": drains})
     casef, rf = ctx.path("reasm-cases.ndjson"), ctx.path("reasm.ndjson")
     with open(casef, "w") as f:
         for c in cases:
